@@ -533,6 +533,67 @@ func ruleX3(p *Prog, r *Report) {
 			}
 			r.Decide(good, R, "health-predicate:every-edge-owner-checked", pos, "once a slab's parent is found the climb always compares their owners before moving on", "the climb can move on (or stop) after finding a slab's parent without comparing their owners: a slab owned by another address is accepted when its parent was already visited through a sibling")
 		}
+		// root count: decided by case analysis - expected in {-1,0,1,2}, number of roots in {0,1,2}; from the first
+		// comparison that involves the expected-count parameter, an error return must be reached exactly when
+		// expected >= 0 and the number of roots differs from it (a negative count asks for no comparison).
+		{
+			var prm *ssa.Parameter
+			for _, q := range h.Params {
+				if q.Type().String() == "int" {
+					prm = q
+				}
+			}
+			var startBlk *ssa.BasicBlock
+			if prm != nil {
+				for _, blk := range h.Blocks {
+					ifi, ok := blk.Instrs[len(blk.Instrs)-1].(*ssa.If)
+					if !ok {
+						continue
+					}
+					if bo, ok := ifi.Cond.(*ssa.BinOp); ok && (canonConv(bo.X) == ssa.Value(prm) || canonConv(bo.Y) == ssa.Value(prm)) {
+						if startBlk == nil || blk.Dominates(startBlk) {
+							startBlk = blk
+						}
+					}
+				}
+			}
+			n++
+			if startBlk == nil {
+				r.Bad(R, "health-predicate:root-count-exact", p.Pos(h.Pos()), "no comparison involves the expected number of roots: the root count is never checked")
+			} else {
+				bad := ""
+				for ev := -1; ev <= 2 && bad == ""; ev++ {
+					for lv := 0; lv <= 2 && bad == ""; lv++ {
+						val := func(v ssa.Value) (int, bool) {
+							v = canonConv(v)
+							if v == ssa.Value(prm) {
+								return ev, true
+							}
+							if k, ok := constInt(v); ok {
+								return int(k), true
+							}
+							if c, ok := v.(*ssa.Call); ok {
+								if bi, ok := c.Call.Value.(*ssa.Builtin); ok && bi.Name() == "len" {
+									return lv, true
+								}
+							}
+							return 0, false
+						}
+						succ, fail := orderReachFrom(startBlk, val)
+						want := ev >= 0 && lv != ev
+						if want && succ {
+							bad = fmt.Sprintf("with %d expected and %d actual roots the check can succeed", ev, lv)
+						}
+						if !want && fail {
+							bad = fmt.Sprintf("with %d expected and %d actual roots the check can fail", ev, lv)
+						}
+					}
+				}
+				r.Decide(bad == "", R, "health-predicate:root-count-exact", p.InstrPos(startBlk.Instrs[len(startBlk.Instrs)-1]),
+					"the check fails exactly when a non-negative expected root count differs from the number of roots found",
+					"the root-count predicate is not exact: "+bad)
+			}
+		}
 		// every reference resolves: the map that records the referenced ids (key converted from a SlabIDStorable)
 		// is ranged over, and each key is looked up among the slabs of the storage with an error on the miss edge.
 		// (The climb from leaves to roots only resolves ids that lie on such a path: a missing childless slab does not.)
